@@ -15,5 +15,6 @@ func TestWorker(t *testing.T) {
 	core.Main(t, core.Engine{Name: "pathsim", Campaigns: map[string]core.RunFunc{
 		"C30/clean":  runClean,
 		"C30/faulty": runFaulty,
+		"C30/byz":    runByz,
 	}})
 }
